@@ -91,7 +91,10 @@ fn case_changed(got: &[String], name: &str) -> Vec<String> {
     got.iter().filter(|g| g.to_lowercase() == name.to_lowercase() && g.as_str() != name).cloned().collect()
 }
 
-pub fn replay(_ctx: &Ctx, case: &Value) -> Outcome {
+pub fn replay(ctx: &Ctx, case: &Value) -> Outcome {
+    if ctx.mode == "C06.kw" {
+        return replay_keyword_case(case);
+    }
     if let Some(h) = case.get("history") {
         // a rejected recorded history: re-run its text
         let text = h[0]["src"].as_str().unwrap_or("").to_string();
@@ -120,7 +123,7 @@ pub fn replay(_ctx: &Ctx, case: &Value) -> Outcome {
             if reserved {
                 o.count("reserved word rejected");
             } else {
-                o.diverge(format!("{pos}: the parser rejects {text:?}: {e}"));
+                rejected(&mut o, pos, &name, text, case["neutral"].as_str(), &e.to_string());
             }
             return o;
         }
@@ -154,6 +157,185 @@ pub fn replay(_ctx: &Ctx, case: &Value) -> Outcome {
                 }
             }
             Err(e) => o.diverge(format!("{pos}: printed text {t1:?} does not parse: {e}")),
+        }
+    }
+    o
+}
+
+/// A text written with a valid identifier is rejected.  The statement quantifies over "all valid identifiers in
+/// every syntactic position that takes a name" and demands that each "reaches the parsed program": if the very same
+/// text with a neutral name in that place IS accepted, the rejection is due to the name (the lexer or parser no
+/// longer takes this spelling for an identifier) and the identifier did not reach the parsed program -- a violation.
+/// If the neutral text is rejected as well, the grammar of the position changed, which is not this property's
+/// business: divergence.
+fn rejected(o: &mut Outcome, pos: &str, name: &str, text: &str, neutral: Option<&str>, err: &str) {
+    match neutral {
+        Some(n) if Program::from_str(n).is_ok() => o.violate(
+            Violation::new("a valid identifier reaches the parsed program", json!(format!("{name} accepted at {pos}")), json!(err))
+                .note(format!("{pos}: {text:?} is rejected while {n:?} is accepted")),
+        ),
+        _ => o.diverge(format!("{pos}: the parser rejects {text:?}: {err}")),
+    }
+}
+
+// ------------------------------------------------------------------------------- keyword look-alikes
+
+/// The lexer's keywords, read from its source (lexer/mod.rs: Command, DataType, Modifier; token.rs: KeywordToken).
+pub fn harvest_keywords() -> Vec<(String, String)> {
+    fn words(camel: &str) -> Vec<String> {
+        // heck-style word split: a new word starts at an upper-case letter that follows a lower-case letter or
+        // precedes one (acronyms such as GE stay one word)
+        let cs: Vec<char> = camel.chars().collect();
+        let mut out: Vec<String> = vec![];
+        for (i, c) in cs.iter().enumerate() {
+            let start = i == 0
+                || (c.is_uppercase() && (cs[i - 1].is_lowercase() || cs.get(i + 1).map(|n| n.is_lowercase()).unwrap_or(false)));
+            if start {
+                out.push(String::new());
+            }
+            out.last_mut().unwrap().push(*c);
+        }
+        out
+    }
+    let mut found = vec![];
+    for (file, enums) in [("lexer/mod.rs", vec!["Command", "DataType", "Modifier"]), ("token.rs", vec!["KeywordToken"])] {
+        let src = std::fs::read_to_string(format!("/repo/quil-rs/src/parser/{file}")).expect("lexer source");
+        let lines: Vec<&str> = src.lines().collect();
+        for en in enums {
+            let Some(at) = lines.iter().position(|l| l.trim_start().starts_with(&format!("pub enum {en} "))) else { panic!("enum {en} not found") };
+            let style = lines[..at].iter().rev().take(6).find_map(|l| l.split("serialize_all = \"").nth(1).map(|r| r.split('"').next().unwrap().to_string()))
+                .unwrap_or_else(|| panic!("serialize_all of {en}"));
+            let mut explicit: Option<String> = None;
+            for l in &lines[at + 1..] {
+                let l = l.trim();
+                if l.starts_with('}') {
+                    break;
+                }
+                if l.starts_with("#[strum(") {
+                    explicit = l.split('"').nth(1).map(|s| s.to_string());
+                    continue;
+                }
+                if l.is_empty() || l.starts_with("//") || l.starts_with('#') {
+                    continue;
+                }
+                let variant: String = l.chars().take_while(|c| c.is_alphanumeric()).collect();
+                if variant.is_empty() {
+                    continue;
+                }
+                let kw = explicit.take().unwrap_or_else(|| match style.as_str() {
+                    "SCREAMING-KEBAB-CASE" => words(&variant).iter().map(|w| w.to_uppercase()).collect::<Vec<_>>().join("-"),
+                    "UPPERCASE" => variant.to_uppercase(),
+                    other => panic!("strum style {other}"),
+                });
+                found.push((en.to_string(), kw));
+            }
+        }
+    }
+    found
+}
+
+/// spellings that equal a keyword up to letter case
+fn look_alikes(kw: &str) -> Vec<String> {
+    let lower = kw.to_lowercase();
+    let upper = kw.to_uppercase();
+    let mut cap: String = lower.clone();
+    if let Some(f) = cap.get(0..1) {
+        cap = f.to_uppercase() + &lower[1..];
+    }
+    let mut v = vec![lower, cap, upper];
+    v.retain(|s| s != kw);
+    v.dedup();
+    v
+}
+
+/// one name position per template ({N} may occur more than once when the position needs it)
+const KW_POSITIONS: &[(&str, &str)] = &[
+    ("gate.name", "{N} 0 1"),
+    ("gate.name.before-variable-qubit", "{N} q9 0"),
+    ("gate.name.after-modifier", "DAGGER {N}(pi) 0"),
+    ("gate.name.in-sequence", "DEFGATE S9 a9 AS SEQUENCE:\n    {N} a9"),
+    ("gate.name.in-circuit", "DEFCIRCUIT C9 a9:\n    {N} a9\n    CONTROLLED {N} a9 0"),
+    ("gate.name.first-in-block", "DEFCAL X 0:\n    {N} 0"),
+    ("region.declare+use", "DECLARE {N} BIT[2]\nMOVE {N}[1] 1\nMEASURE 0 {N}"),
+    ("region.in-expression", "DECLARE {N} REAL\nRX(2*{N}) 0"),
+    ("region.bare-operand", "MOVE ro {N}"),
+    ("region.sharing", "DECLARE x9 BIT SHARING {N}"),
+    ("region.load-store", "LOAD ro {N} idx\nSTORE {N} idx ro"),
+    ("label", "LABEL @{N}\nJUMP @{N}\nJUMP-WHEN @{N} ro"),
+    ("variable", "RX(%{N}) 0"),
+    ("formal-parameter", "DEFGATE G9(%{N}) AS MATRIX:\n    %{N}, 0\n    0, 1"),
+    ("qubit.variable", "X {N}\nMEASURE {N} ro\nFENCE 0 {N}"),
+    ("qubit.variable.defcal", "DEFCAL X {N}:\n    DELAY {N} \"rf\" 1.0"),
+    ("qubit.variable.defcircuit", "DEFCIRCUIT C9 {N}:\n    X {N}"),
+    ("waveform.name", "PULSE 0 \"rf\" {N}"),
+    ("waveform.name.ext", "PULSE 0 \"rf\" w9/{N}(a: 1)"),
+    ("waveform.key", "PULSE 0 \"rf\" w9({N}: 1)"),
+    ("defwaveform.name", "DEFWAVEFORM {N}:\n    1, 2"),
+    ("pragma.name", "PRAGMA {N}"),
+    ("pragma.argument", "PRAGMA p9 {N} 1"),
+    ("defgate.name", "DEFGATE {N} AS PERMUTATION:\n    0, 1"),
+    ("defcircuit.name", "DEFCIRCUIT {N}:\n    X 0"),
+    ("defcal.name", "DEFCAL {N} 0:\n    NOP"),
+    ("call.name", "CALL {N} ro"),
+    ("call.argument", "CALL f9 {N} {N}[1]"),
+    ("measure.name", "MEASURE!{N} 0 ro[0]"),
+    ("defcal-measure.target", "DEFCAL MEASURE 0 {N}:\n    NOP"),
+    ("defframe.attribute-key", "DEFFRAME 0 \"rf\":\n    {N}: 1.0"),
+    ("sequence.qubit", "DEFGATE S9 {N} AS SEQUENCE:\n    H {N}"),
+];
+const NEUTRAL: &str = "zq9";
+
+/// `qv drive C06.harvest --out FILE`: every (keyword look-alike, position) pair that the parser of the tree it is run
+/// on accepts with the name intact.  Run on the unchanged tree, the file is the committed baseline
+/// spec/mc/C06_keyword_cases.ndjson: a pair the unchanged parser rejects is not a case.
+fn harvest_cases(ctx: &Ctx) -> Summary {
+    let path = ctx.arg_str("out").expect("--out");
+    let mut out = std::io::BufWriter::new(std::fs::File::create(path).expect("create"));
+    let mut sum = Summary::default();
+    for (class, kw) in harvest_keywords() {
+        for name in look_alikes(&kw) {
+            for (pos, tpl) in KW_POSITIONS {
+                let text = tpl.replace("{N}", &name);
+                let written = tpl.matches("{N}").count();
+                let mut o = Outcome::ok(true);
+                let ok = match Program::from_str(&text) {
+                    Ok(p) => {
+                        let got = all_names(&Value::Array(c02::program_abs(&p)));
+                        got.iter().filter(|g| g.to_lowercase() == name.to_lowercase()).count() == written
+                            && case_changed(&got, &name).is_empty()
+                    }
+                    Err(_) => false,
+                };
+                if ok {
+                    util::emit(&mut out, &json!({"class": class, "keyword": kw, "name": name, "pos": pos, "written": written,
+                                                 "text": text, "neutral": tpl.replace("{N}", NEUTRAL)}));
+                    o.count("valid pair");
+                } else {
+                    o.count("not a case on this tree");
+                    o.skipped = true;
+                }
+                sum.absorb(&json!({"name": name, "pos": pos}), &o, true);
+            }
+        }
+    }
+    sum
+}
+
+fn replay_keyword_case(case: &Value) -> Outcome {
+    let name = case["name"].as_str().unwrap();
+    let pos = case["pos"].as_str().unwrap();
+    let text = case["text"].as_str().unwrap();
+    let written = case["written"].as_u64().unwrap() as usize;
+    let mut o = Outcome::ok(true);
+    o.count(case["class"].as_str().unwrap_or("?"));
+    match Program::from_str(text) {
+        Err(e) => rejected(&mut o, pos, name, text, case["neutral"].as_str(), &e.to_string()),
+        Ok(p) => {
+            let got = all_names(&Value::Array(c02::program_abs(&p)));
+            let same: Vec<String> = got.iter().filter(|g| g.to_lowercase() == name.to_lowercase()).cloned().collect();
+            if same.len() != written || same.iter().any(|g| g != name) {
+                o.violate(Violation::new("names of the parsed program", json!(vec![name; written]), json!(got)).note(format!("{pos}: {text:?}")));
+            }
         }
     }
     o
@@ -238,6 +420,9 @@ fn mutate_name(r: &mut impl Rng, w: &str) -> String {
 }
 
 pub fn drive(ctx: &Ctx) -> Summary {
+    if ctx.mode == "C06.harvest" {
+        return harvest_cases(ctx);
+    }
     let n = ctx.arg_u64("n", 300);
     let path = ctx.arg_str("out").expect("--out");
     let mut out = std::io::BufWriter::new(std::fs::File::create(path).expect("create trace"));
